@@ -103,6 +103,11 @@ func concRoutes() []ref.Route {
 		{Pattern: "svc.mnt.thru.$g.$id", Marker: "thru", Group: "t.${g}"},
 		{Pattern: "svc.mnt.wk.$kind.$id.>", Marker: "wk", Group: "k${id}"},
 		{Pattern: "svc.par.$id", Marker: "par", Parallel: true},
+		// the root resource of the service and of the mounted Mux (default group = resource name)
+		{Pattern: "svc", Marker: "root"},
+		{Pattern: "svc.mnt", Marker: "mroot"},
+		// Parallel wins over a Group set on the same handler
+		{Pattern: "svc.pg.$id", Marker: "pg", Parallel: true},
 	}
 }
 
@@ -169,7 +174,10 @@ func (e *concEngine) configure(s *res.Service) {
 	s.Handle("sb.$id", with(h("sb"), res.Group("shared"))...)
 	s.Handle("tag.$g.$id", with(h("tag"), res.Group("${g}"))...)
 	s.Handle("par.$id", with(h("par"), res.Parallel(true))...)
+	s.Handle("pg.$id", with(h("pg"), res.Group("pg.${id}"), res.Parallel(true))...)
+	s.Handle("", h("root")...)
 	sub := res.NewMux("")
+	sub.Handle("", h("mroot")...)
 	sub.Handle("item.$id", h("mitem")...)
 	sub.Handle("tg.$g.$id", with(h("mtg"), res.Group("m${g}"))...)
 	sub.Handle("wk.$kind.$id.>", with(h("wk"), res.Group("k${id}"))...)
@@ -257,7 +265,7 @@ func (e *concEngine) handle(kind string, r *res.Request) {
 	e.body(id, s.Group, s.Parallel)
 }
 
-var concRIDs = []string{"svc.mnt.wk.a.%d.t", "svc.mnt.wk.b.%d.t.u", "svc.res.%d", "svc.sa.%d", "svc.sb.%d", "svc.tag.g%d.x", "svc.tag.g%d.y", "svc.mnt.item.%d", "svc.mnt.tg.g%d.z", "svc.mnt.deep.x.%d", "svc.mnt.thru.g%d.q", "svc.par.%d"}
+var concRIDs = []string{"svc.mnt.wk.a.%d.t", "svc.mnt.wk.b.%d.t.u", "svc.res.%d", "svc.sa.%d", "svc.sb.%d", "svc.tag.g%d.x", "svc.tag.g%d.y", "svc.mnt.item.%d", "svc.mnt.tg.g%d.z", "svc.mnt.deep.x.%d", "svc.mnt.thru.g%d.q", "svc.par.%d", "svc", "svc.mnt", "svc.pg.%d"}
 
 func (e *concEngine) randRID(r *rand.Rand) string {
 	hot := e.cfg.HotGroups
@@ -271,6 +279,9 @@ func (e *concEngine) randRID(r *rand.Rand) string {
 	t := concRIDs[r.Intn(len(concRIDs))]
 	if r.Intn(6) == 0 {
 		t = "svc.res.%d" // keep the default-group resources hot
+	}
+	if !strings.Contains(t, "%d") {
+		return t
 	}
 	return fmt.Sprintf(t, n)
 }
@@ -297,7 +308,7 @@ func (e *concEngine) submit(r *rand.Rand, p, n int) {
 		// no handler matches: other names, too few or too many tokens, and near
 		// misses around the service name, separators and empty tokens
 		unmatched := []string{"svc.nomatch.x", "other.res.1", "svc.res", "svc.tag.g1", "svcXres.1", "svc_res.1", "svcres.1", "svcsres.1?q=1",
-			"svc", "sv.res.1", "svc.res.1.x", "svc.mnt", "svc.mnt.item", "svc.mntXitem.1",
+			"sv", "sv.res.1", "svc.res.1.x", "svc.mn", "svc.mnt.item", "svc.mntXitem.1",
 			"svc.mnt.wk.a.1", "Svc.res.1", "svc.RES.1", "svc.par.1.2", "svc.sa"}
 		// (names that are not valid resource ids - empty tokens, wildcard characters - are left out: the property
 		// speaks about resource ids)
